@@ -584,3 +584,16 @@ def main(P):
     P.reg('f')
     P.snap()
 """)], ['fixed-rereg'])
+
+
+def merge_results(res, res2, label):
+    res.mismatches += res2.mismatches
+    res.spec_fails += res2.spec_fails
+    res.infra_errors += res2.infra_errors
+    c1, c2 = res.coverage, res2.coverage
+    c1['evaluations'] += c2['evaluations']
+    c1['distinct_nontrivial'] += c2['distinct_nontrivial']
+    c1['events'] += c2['events']
+    c1['samples'] += c2['samples'][:1]
+    c1[label] = dict(evaluations=c2['evaluations'], hypothesis_holds_on=c2['hypothesis_holds_on'])
+    return res
